@@ -62,6 +62,25 @@ def evaluate(ctx, cases, stream):
                         bad.append({'query': q, 'form': form, 'impl': 'returned an obsolete or foreign term object'})
                     if len(bad) >= 3:
                         break
+                # the collection views must be what they were, after all those lookups (hits and misses)
+                impl2 = {'len': len(onto), 'terms': sorted(t.identifier.value for t in onto.terms),
+                         'term_ids': sorted(t.value for t in onto.term_ids)}
+                if not bad and impl2 != model:
+                    bad.append({'what': 'len/terms/term_ids after the lookups', 'impl': impl2, 'model': model})
+                # and every id in every argument form gives one answer
+                if not bad:
+                    for (q, _), ma in zip(c['queries'], rep['answers']):
+                        for form in FORMS:
+                            if form == 'str_' and gl.underscore_form(q) is None:
+                                continue
+                            arg = gl.mk_arg(form, q)
+                            t = onto.get_term(arg)
+                            ia = {'id': None if t is None else t.identifier.value, 'name': onto.get_term_name(arg), 'contains': arg in onto}
+                            if ia != ma:
+                                bad.append({'query': q, 'form': form, 'impl': ia, 'model': ma})
+                                break
+                        if bad:
+                            break
         except Exception as e:  # noqa
             bad.append({'what': 'raises', 'impl': f'{type(e).__name__}: {e}'})
         if bad:
@@ -138,7 +157,12 @@ def run(ctx):
     # random larger collections
     cases = []
     for _ in range(1500 if thorough else 300):
-        pool = [f'HP:{i:07d}' for i in rng.sample(range(1, 200), 70)]
+        style = rng.choice(['hp', 'hp', 'mixed-case'])
+        if style == 'hp':
+            pool = [f'HP:{i:07d}' for i in rng.sample(range(1, 200), 70)]
+        else:       # prefixes that are not all upper-case, as in NCBITaxon / FBbt / Orphanet / obo-style lower-case ids
+            pool = [f'{rng.choice(["NCBITaxon", "FBbt", "Orphanet", "hp", "Hp", "HP", "MONDO"])}:{i:07d}' for i in rng.sample(range(1, 200), 70)]
+            pool = list(dict.fromkeys(pool))
         rng.shuffle(pool)
         it = iter(pool)
         terms = []
@@ -159,6 +183,11 @@ def run(ctx):
         rng.shuffle(terms)
         # duplicate obsolete primary ids are fine; current ids are disjoint by construction
         unknown = [f'HP:{i:07d}' for i in rng.sample(range(300, 400), 8)] + ['MP:0000001', 'HP:1']
+        known = [t['id'] for t in terms] + [a for t in terms for a in t['alts']]
+        for kid in rng.sample(known, min(4, len(known))):      # case / blank variants of known ids are different ids
+            for var in (kid.lower(), kid.upper(), kid.swapcase(), ' ' + kid, kid + ' '):
+                if var not in known and ':' in var:
+                    unknown.append(var)
         cases.append({'terms': terms, 'full': rng.random() < 0.5, 'queries': queries_for(rng, terms, unknown)})
     for i in range(0, len(cases), 500):
         evaluate(ctx, cases[i:i + 500], 'random.collections')
